@@ -1,13 +1,19 @@
 /-
   Driver.C11 — the sequential request-queue model (Golib/Queue/Seq.lean) on lines.
 
-    Q  <cap> <op>;<op>;…            → <ret>[<ev>,<ev>…];…  | <items>/<cap>      (QF / DQF: the same with the repaired timed get)
+    Q  <cap> <op>;<op>;…            → <ret>[<ev>,<ev>…];…  | <items>/<cap>      (QF / DQF: the same with the repaired timed get;
+                                                                                   QL: QF on the pointer-level linked list)
     DQ <cap1> <cap2> <op>;…         → <ret>[<i>:<ev>,…];…  | <items1>/<cap1> <items2>/<cap2>
     T  <timeto> <polled>@<now>;…    → got <x> | timeout <now> | running      (timed get over a clock)
 
     TQ <timeto> <cap> <round>|<round>|…   the polling loop with the queue: round = <op>,<op>,…@<now>
                                     (operations of other threads before this poll; `-` = none)
                                     → got <x> | timeout <now> | running, then [events] | queue
+
+    TM <cap> <d0>,<d1>,… <ev>|<ev>|…      several timed gets on one queue (Queue/TimedMany.lean): consumer i has
+                                    deadline d_i; ev = o<op> (operation of another thread) or <i>@<now> (a turn of
+                                    consumer i: poll, and if empty-handed the clock reads <now> after the sleep)
+                                    → <res0>;<res1>;… [events] | queue      res = got <x> | timeout <now> | running
 
   queue ops   p<x> put   f<x> putForce   g get (blocking; `blocked` when empty)   n getNoWait
               t<k> getTimeout with k extra polls   x clear   c<cap> setCapacity   s size   k getCapacity
@@ -17,6 +23,8 @@
 import Golib.Queue.Seq
 import Golib.Queue.Timed
 import Golib.Queue.Fixed
+import Golib.Queue.TimedMany
+import Golib.Queue.OverLinked
 import Driver.Common
 
 open Drv Queue
@@ -102,6 +110,16 @@ def runDQF (d : DQ) : List DOp → List String → DQ × List String
     let s := dstepF d op
     runDQF s.1 ops ((retStr s.2.1 ++ "[" ++ ",".intercalate (s.2.2.map (fun e => s!"{e.1}:{evStr e.2}")) ++ "]") :: acc)
 
+/-- the queue over the pointer-level linked list (Queue/OverLinked.lean) -/
+def runQL (q : QL) : List Op → List String → QL × List String
+  | [], acc => (q, acc.reverse)
+  | op :: ops, acc =>
+    let s := stepL q op
+    runQL s.1 ops ((retStr s.2.1 ++ "[" ++ ",".intercalate (s.2.2.map evStr) ++ "]") :: acc)
+
+def qlShow (q : QL) : String :=
+  listOf toString (decArr (Lists.Linked.LL.step .toArray q.list).1) ++ "/" ++ toString q.cap
+
 def parseOps {α : Type} (f : String → Option α) (s : String) : Option (List α) :=
   if s == "-" || s == "" then some [] else (s.splitOn ";").mapM f
 
@@ -117,13 +135,38 @@ def parseRound (s : String) : Option Round :=
     some ⟨os, ← parseInt n⟩
   | _ => none
 
+def parseMEv (s : String) : Option MEv :=
+  match s.toList with
+  | 'o' :: rest => (parseOp (String.ofList rest)).map .other
+  | _ =>
+    match s.splitOn "@" with
+    | [i, n] => do some (.poll (← parseNat i) (← parseInt n))
+    | _ => none
+
+def resStr : Option TimedRes → String
+  | some (.got x) => s!"got {x}"
+  | some (.timedOut t) => s!"timeout {t}"
+  | none => "running"
+
 def answer (line : String) : String :=
   match line.splitOn " " with
+  | ["TM", cap, deadlines, evs] =>
+    match parseInt cap, (deadlines.splitOn ",").mapM parseInt, (evs.splitOn "|").mapM parseMEv with
+    | some c, some ds, some es =>
+      let r := mrunTR (MSt.start ⟨[], c⟩ ds) es []
+      ";".intercalate (r.1.cs.map (fun c => resStr c.res)) ++ " [" ++ ",".intercalate (r.2.map evStr) ++ "] | " ++ qShow r.1.q
+    | _, _, _ => "bad-op"
   | ["Q", cap, ops] =>
     match parseInt cap, parseOps parseOp ops with
     | some c, some os =>
       let r := runQ ⟨[], c⟩ os []
       ";".intercalate r.2 ++ " | " ++ qShow r.1
+    | _, _ => "bad-op"
+  | ["QL", cap, ops] =>
+    match parseInt cap, parseOps parseOp ops with
+    | some c, some os =>
+      let r := runQL (QL.new c) os []
+      ";".intercalate r.2 ++ " | " ++ qlShow r.1
     | _, _ => "bad-op"
   | ["QF", cap, ops] =>
     match parseInt cap, parseOps parseOp ops with
